@@ -14,7 +14,7 @@ __all__ = ['interior_vertex_func', 'CenterTime', 'CenterLay', 'CenterRow',
            'CAMxHeightToDepth', 'ConvertCAMxTime']
 
 import unittest
-from numpy import mean, array, sum, arange, zeros, newaxis
+from numpy import mean, array, sum, arange, zeros, newaxis, where
 from warnings import warn
 from PseudoNetCDF.sci_var import PseudoNetCDFVariable
 
@@ -114,10 +114,9 @@ def ConvertCAMxTime(date, time, nvars):
     if len(a.shape) == 2:
         a = a[:, newaxis, :]
     date = a[:, :, 0]
-    if (date < 70000).any():
-        date += 2000000
-    else:
-        date += 1900000
+    # two-digit years 70-99 are 19xx, 00-69 are 20xx; decide per date so
+    # that a file spanning 1999/2000 keeps its 1999 dates
+    date += where(date < 70000, 2000000, 1900000)
     time = a[:, :, 1]
     while not (time == 0).all() and time.max() < 10000:
         time *= 100
